@@ -21,7 +21,18 @@ Inductive attrval := AInt (z : Z) | AStr (s : string) | AInts (l : list Z).
 Inductive apat := APConst (a : attrval) | APVar (name : option string) (none_ok : bool).
 
 (* ------------------------------------------------------------------ constants *)
-Inductive cval := CScalar (q : Q) | CVec (l : list Q) | COther.
+(* a value's const_value as the matcher reads it (constant_value.numpy()): `CScalar q` a 0-d tensor, `CVec l` a rank-1
+   tensor, `CTensor shape l` a tensor of ANY shape given with its elements in row-major order (the harness uses it for
+   rank >= 2 and, as a second encoding, for ranks 0 and 1), `COther` a constant the matcher cannot read as numbers.
+   `cval_view` is the common reading: (shape, elements in row-major order). *)
+Inductive cval := CScalar (q : Q) | CVec (l : list Q) | COther | CTensor (shape : list nat) (l : list Q).
+Definition cval_view (c : cval) : option (list nat * list Q) :=
+  match c with
+  | CScalar q => Some ([], [q])
+  | CVec l => Some ([List.length l], l)
+  | CTensor sh l => Some (sh, l)
+  | COther => None
+  end.
 (* Constant(value, rel_tol, abs_tol): scalar or 1-D list *)
 Inductive cpat := CPScalar (q rel abs : Q) | CPVec (l : list Q) (rel abs : Q).
 
@@ -193,14 +204,19 @@ Fixpoint all_close (xs ps : list Q) (rel abs : Q) : bool :=
   | _, _ => false
   end.
 
-(* SimplePatternMatcher._match_constant *)
+(* SimplePatternMatcher._match_constant: a list constant needs numpy_value.shape == (len(list),) -- rank 1 and that
+   length -- and element i within tolerance of list[i]; a scalar constant needs numpy_value.ndim == 0 *)
+Definition shape_eqb (a b : list nat) : bool := list_eqb Nat.eqb a b.
 Definition const_ok (g : hgraph) (c : cpat) (x : vid) : bool :=
   match assoc Nat.eqb x (g_consts g) with
   | None => false                                  (* value.const_value is None *)
   | Some cv =>
-      match c, cv with
-      | CPScalar q rel abs, CScalar y => isclose y q rel abs
-      | CPVec ps rel abs, CVec ys => all_close ys ps rel abs      (* shape (len,) and element-wise *)
-      | _, _ => false
+      match cval_view cv with
+      | None => false
+      | Some (sh, ys) =>
+          match c with
+          | CPScalar q rel abs => match sh, ys with [], [y] => isclose y q rel abs | _, _ => false end
+          | CPVec ps rel abs => shape_eqb sh [List.length ps] && all_close ys ps rel abs
+          end
       end
   end.
